@@ -8,11 +8,14 @@ ids="$@"
 [ -z "$ids" ] && ids=$(ls /verif/seeded)
 mkdir -p /var/tmp/reg
 one() {
-  id=$1; prop=${id%-*}
-  W=/var/tmp/reg/$id
+  # an argument is a kept seed id (C07-3), or a directory holding patch.diff, optionally followed by :PROP
+  arg=$1; src=${arg%%:*}
+  if [ -d "$src" ]; then dir=$src; id=$(basename $src); id=${id#seed-}; else dir=/verif/seeded/$src; id=$src; fi
+  prop=${id%-*}; case "$arg" in *:*) prop=${arg##*:};; esac
+  W=/var/tmp/reg/$id.$prop
   rm -rf $W; mkdir -p $W
   git -C /repo worktree add --detach $W/repo HEAD >/dev/null 2>&1 || { echo "$id $prop WORKTREE-FAILED"; return; }
-  if ! git -C $W/repo apply /verif/seeded/$id/patch.diff 2>/dev/null; then
+  if ! git -C $W/repo apply $dir/patch.diff 2>/dev/null; then
     echo "$id $prop PATCH-DOES-NOT-APPLY"
     git -C /repo worktree remove --force $W/repo >/dev/null 2>&1; rm -rf $W; return
   fi
